@@ -35,7 +35,8 @@ import deep.logging
 from deep.api.tracepoint.eventsnapshot import WATCH_SOURCE_CAPTURE
 from deep.logging import logging
 from deep.api.tracepoint import WatchResult, Variable
-from deep.processor.variable_set_processor import VariableSetProcessor, VariableCacheProvider
+from deep.processor.variable_set_processor import VariableSetProcessor, VariableCacheProvider, \
+    VariableProcessorConfig
 from deep.utils import str2bool
 
 if TYPE_CHECKING:
@@ -61,6 +62,11 @@ class ActionContext(abc.ABC):
         self.var_cache = VariableCacheProvider()
         self.vars: Dict[str, Variable] = {}
 
+    @property
+    def collection_config(self) -> VariableProcessorConfig:
+        """The limits to use when collecting variables (watches, captures) for this action."""
+        return VariableProcessorConfig()
+
     def __enter__(self):
         """Enter and open the context."""
         return self
@@ -78,11 +84,14 @@ class ActionContext(abc.ABC):
         :param watch: The watch expression to evaluate.
         :return: Tuple with WatchResult, collected variables, and the log string for the expression
         """
-        var_processor = VariableSetProcessor({}, self.var_cache)
+        var_processor = VariableSetProcessor({}, self.var_cache, self.collection_config)
 
         try:
             result = self.trigger_context.evaluate_expression(watch)
             variable_id, log_str = var_processor.process_variable(watch, result)
+            if variable_id.vid is None:
+                # the variable budget of this action is already used up, so the value was not collected
+                return WatchResult(source, watch, None, "variable limit reached"), {}, log_str
 
             return WatchResult(source, watch, variable_id), var_processor.var_lookup, log_str
         except BaseException as e:
@@ -97,8 +106,11 @@ class ActionContext(abc.ABC):
         :param variable: the value to process
         :return: Tuple with WatchResult, collected variables, and the log string for the expression
         """
-        var_processor = VariableSetProcessor({}, self.var_cache)
+        var_processor = VariableSetProcessor({}, self.var_cache, self.collection_config)
         variable_id, log_str = var_processor.process_variable(name, variable)
+        if variable_id.vid is None:
+            # the variable budget of this action is already used up, so the value was not collected
+            return WatchResult(WATCH_SOURCE_CAPTURE, name, None, "variable limit reached"), {}, log_str
 
         return WatchResult(WATCH_SOURCE_CAPTURE, name, variable_id), var_processor.var_lookup, log_str
 
